@@ -74,6 +74,10 @@ def fault_cases(ctx):
                     fa, fb = rng.choice(by[classes[a]]), rng.choice(by[classes[b]])
                     if fa == fb:
                         continue
+                    # a second feed can turn an in/in (or none/in) sibling connection into one whose source IS fed: the
+                    # document then carries only the lax-interface fault (known finding), not two independent faults
+                    if {fa[0], fb[0]} & {'second_feed'} and {fa[0], fb[0]} & {'both_receivers', 'no_direction_source'}:
+                        continue
                     d1 = G.apply_fault(doc, fa)
                     try:
                         d2 = G.apply_fault(d1, fb) if d1 is not None else None
